@@ -1808,11 +1808,12 @@ func genCfg(rng *hx.Rng) []string {
 		ops = append(ops, "cfg fault "+hx.Pick(rng, []string{"close", "closedb"}))
 	}
 	if rng.Chance(1, 4) {
-		// short, binary, long, equal to the realm bytes, prefix-related to the second lane's key
-		keys := []string{"73", "00", "ff", "ffffffffffffffffff", "73746f7265", "7365", "736571", strings.Repeat("ab", 40)}
+		// short, binary, long (40 and 100 bytes), equal to the realm bytes, prefix-related to the second lane's key
+		keys := []string{"73", "00", "ff", "ffffffffffffffffff", "73746f7265", "7365", "736571", strings.Repeat("ab", 40), strings.Repeat("ab", 100)}
 		ops = append(ops, "cfg key "+hx.Pick(rng, keys))
 		if rng.Chance(1, 2) {
-			ops = append(ops, "cfg key2 "+hx.Pick(rng, []string{"7366", "73657132", "0000", "ff00", "73746f726573"}))
+			// … prefix-related to / sharing a long prefix with the first lane's key (40 / 100 bytes long, all but the last byte in common)
+			ops = append(ops, "cfg key2 "+hx.Pick(rng, []string{"7366", "73657132", "0000", "ff00", "73746f726573", strings.Repeat("ab", 39) + "ac", strings.Repeat("ab", 41), strings.Repeat("ab", 99) + "ac", strings.Repeat("ab", 99) + "ac"}))
 		}
 		if rng.Chance(1, 3) {
 			ops = append(ops, "cfg key3 "+hx.Pick(rng, []string{"01", "736572", "fe", "7374"}))
@@ -2132,6 +2133,8 @@ func main() {
 		{"cfg stack view,dbgnil", "new 2", "next", "next", "next", "crash idle", "new 2", "next", "mark"},
 		{"cfg stack root,dbgf:8,flush,realm:7a", "new 1", "next", "release", "next", "crash write", "new 3", "next", "mark"},
 		{"cfg stack view,dbgnilf:16,dbgf:0,dbg", "cfg fault close", "new 3", "next", "fnext set", "next", "frelease", "release", "new 1", "next"},
+		// two long keys that differ in their last byte only
+		{"cfg key " + strings.Repeat("ab", 100), "cfg key2 " + strings.Repeat("ab", 99) + "ac", "new 2", "k2 new 3", "next", "k2 next", "k2 next", "next", "next", "crash write", "k2 crash idle", "new 1", "k2 new 1", "next", "k2 next", "mark", "k2 mark"},
 		// other users of the store (other keys of the same view, parent view, sibling views: delete by prefix, clear, batches)
 		{"cfg key 73746f7265", "cfg key2 73746f726573", "new 2", "k2 new 3", "next", "k2 next", "foreign own", "foreign batch", "foreign sib", "foreign parent", "foreign iter", "next", "k2 next", "crash idle", "k2 crash idle", "new 1", "k2 new 1", "next", "k2 next", "mark", "k2 mark"},
 		{"cfg stack root,dbgf:16,flush,realm:7a", "new 1", "next", "foreign sib", "foreign own", "foreign batch", "next", "crash write", "new 2", "next", "mark"},
